@@ -138,6 +138,39 @@ def class_has_property(mod: ModuleSrc, cls_qual, name):
     return class_member(mod, cls_qual, name, "getter") is not None
 
 
+def class_property_assign(mod: ModuleSrc, cls_qual, name):
+    """A property made by assignment in the class body, `name = property(fget[, fset[, fdel[, doc]]])` (also with
+    the keywords fget= / fset=): returns (fget_node, fset_node) — each an ast.Name (a function defined in the same
+    class body), an ast.Lambda, or None — or None when `name` is not defined that way.
+    CPython semantics: `property(...)` captures the function *objects* at class-creation time, so the accessor is
+    the one of the defining class, not re-dispatched through a subclass's override."""
+    cnode = find_class(mod, cls_qual)
+    if cnode is None:
+        return None
+    found = None
+    for n in cnode.body:
+        if isinstance(n, ast.Assign) and len(n.targets) == 1 and isinstance(n.targets[0], ast.Name) and n.targets[0].id == name:
+            v = n.value
+            if isinstance(v, ast.Call) and isinstance(v.func, ast.Name) and v.func.id == "property":
+                parts = {"fget": None, "fset": None}
+                for k, a in zip(("fget", "fset", "fdel", "doc"), v.args):
+                    parts[k] = a
+                for kw in v.keywords:
+                    parts[kw.arg] = kw.value
+                norm = []
+                for k in ("fget", "fset"):
+                    a = parts.get(k)
+                    if isinstance(a, ast.Constant) and a.value is None:
+                        a = None
+                    if a is not None and not isinstance(a, (ast.Name, ast.Lambda)):
+                        return None
+                    norm.append(a)
+                found = tuple(norm)
+            else:
+                found = None
+    return found
+
+
 def resolve(key: str) -> FnRef:
     """`path/to/file.py:Qual.name[.setter]` or nested `f.<inner>` -> FnRef."""
     rel, qual = key.rsplit(":", 1)
